@@ -10,6 +10,7 @@ agree with them event by event.
 import Dawgs.Proofs.C11
 import Dawgs.Proofs.C11Data
 import Dawgs.Proofs.C11Nodup
+import Dawgs.Proofs.C11Tree
 import Dawgs.Generated.C11
 namespace Dawgs.C11.Props
 open Dawgs.C11
@@ -64,6 +65,25 @@ theorem consume_next_is_exit (v : Visitor α) (t : Tree α) (pre post : List (Ev
   obtain ⟨_, m, _, hm, hmust, _⟩ := generic_accepted v t
   rw [hlog] at hm
   exact Dawgs.C11.consume_next_is_exit v pre post e l m hm hmust ha he
+
+/-- the tree-aware monitor (`judgeRunT`, which also judges the real walkers' logs against their branch trees)
+accepts every run: for EVERY visitor, every Enter is the next unvisited branch of the innermost open node, and a
+node is exited only when no branch of it is left or the visitor consumed in its Enter or in one of its Visits. -/
+theorem tree_monitor_accepts_generic (v : Visitor α) (t : Tree α) (r : Result) (h : (generic v t).ret = some r) :
+    judgeRunT v t (generic v t).log r = none := judgeRunT_generic v t r h
+
+/-- `consume_schedule_complete`: whatever the visitor's Consume schedule — Consume in Enter, in Visit, in Exit, in
+several callbacks of the same node — a walk that is never cancelled and returns nil has entered and exited, in
+branch order and exactly once, every node that is not below a node consumed in its Enter or cut off by a Consume
+in a Visit: the replay against the branch tree ends with no open node and no branch of any visited node left.
+A Consume issued in an Exit callback prunes nothing. -/
+theorem consume_schedule_complete (v : Visitor α) (t : Tree α) (hv : ∀ h, v h ≠ .done ∧ v h ≠ .error)
+    (hret : (generic v t).ret = some .ok) :
+    ∃ m, treplay v [] (generic v t).log (TMon.init t) = some m ∧ m.stack = [⟨none, []⟩] ∧ m.must = none := by
+  obtain ⟨r, m, hr, hm, hmust, hok⟩ := generic_taccepted v t
+  rw [hret] at hr; cases hr
+  have hs := treplay_never_stopped v hv [] _ _ _ hm rfl
+  exact ⟨m, hm, hok.1 hs, hmust⟩
 
 omit [DecidableEq α] in
 /-- `consume_prunes_exactly_subtree` (2): a visitor that consumes exactly when entering a `p`-node enters, in pre-order,
@@ -157,6 +177,12 @@ def tables : Tables := Dawgs.Generated.C11.tables
 
 /-- the extractor classified every `copy()` method and every cursor-constructor case -/
 theorem extractor_recognised_everything : Dawgs.Generated.C11.unrecognised = [] := by decide
+
+/-- the shape of `walk.Generic` the transcription mirrors: one Enter, one Visit and three Exit call sites; the error
+check follows every callback, the done check every Enter/Visit, and after EVERY Exit the consume flag is
+read-and-cleared before the cursor is popped (a Consume issued in an Exit callback cannot leak to the parent) -/
+theorem generic_shape_inst : Dawgs.Generated.C11.genericSites = (1, 1, 3) ∧
+    Dawgs.Generated.C11.genericFacts.all (·.2) = true := by decide
 
 /-- `semanticSubset Generated.tables` -/
 theorem semanticSubset_inst : semanticSubset tables = true := by decide +kernel
@@ -288,5 +314,8 @@ example : (generic (scripted 4 .done) tiny).log = [.enter 0, .enter 1, .enter 2,
 example : (generic (scripted 3 .error) tiny).ret = some .visitorError := by decide
 example : (generic (fun _ => Act.continue) (.node 0 [.node 1 [], .bad] : Tree Nat)).ret = some .cursorError := by decide
 example : (Tree.prune (fun n => n == 1) tiny).good = true := by decide
+/-- Consume in Enter(1) and again in Exit(1): the sibling 3 is still walked -/
+example : (generic (fun h => if h.length == 2 || h.length == 3 then Act.consume else .continue) tiny).log =
+    [.enter 0, .enter 1, .exit 1, .visit 0, .enter 3, .exit 3, .exit 0] := by decide
 
 end Dawgs.C11.Props
